@@ -662,7 +662,9 @@ func ruleERRFLOW(w *World, r *Report, sc errflowScope, floor int) {
 				continue
 			}
 			// closure splitting
-			if lit := s.Call.Call.StaticCallee(); lit != nil && lit.Parent() == fn {
+			// ... also for a module function that returns booleans next to its error (`data, corrupt, err :=
+			// d.readDataFile(...)`): which return site produced the error decides what the flags are
+			if lit := s.Call.Call.StaticCallee(); lit != nil && len(lit.Blocks) > 0 && (lit.Parent() == fn || (w.inModule(lit) && hasBoolResult(lit))) {
 				eidx := 0
 				if ex, ok := s.Err.(*ssa.Extract); ok {
 					eidx = ex.Index
@@ -700,4 +702,14 @@ func ruleERRFLOW(w *World, r *Report, sc errflowScope, floor int) {
 	}
 	r.stat("error_sources", n)
 	r.floor("ERRFLOW", "error sources"+sc.tag, n, floor)
+}
+
+func hasBoolResult(f *ssa.Function) bool {
+	res := f.Signature.Results()
+	for i := 0; i < res.Len(); i++ {
+		if b, ok := res.At(i).Type().Underlying().(*types.Basic); ok && b.Kind() == types.Bool {
+			return true
+		}
+	}
+	return false
 }
